@@ -2,11 +2,15 @@
    Property theorems only.  Decoders: Model/Filters.v (mirrors runlength.py, ascii85.py, lzw.py,
    utils.apply_png_predictor / apply_tiff_predictor and the loop of PDFStream.decode;
    paeth_predictor and the filter-name tables are regenerated from source).
-   NOT PROVED HERE (covered by differential runs only, see evidence): the LZW round trip and the
-   Flate stage (zlib is an oracle: in C03_chain any stage only has to satisfy [stage_inverts]). *)
+   LZW: C03_lzw_codes (code level: the codes of ANY admissible factorisation of the data into phrases -- single bytes
+   or dictionary entries, greedy or not, including the entry the decoder has not built yet -- decode to the data) and
+   C03_lzw (bit level: a byte string carrying, most significant bit first and in the widths the decoder expects under
+   early change, clear-table, those codes, optionally end-of-data, decodes to the data).
+   NOT PROVED HERE (covered by differential runs only, see evidence): the Flate stage (zlib is an oracle: in C03_chain
+   any stage only has to satisfy [stage_inverts]); LZW streams with further clear-table codes in the middle (sampled). *)
 From Coq Require Import ZArith List Bool.
 From PdfV Require Import Base.CV Base.Num Gen.FilterGen Model.Filters Model.FiltersRun
-  Proofs.FilterProofs Proofs.A85Proofs.
+  Proofs.FilterProofs Proofs.A85Proofs Proofs.LZWProofs Proofs.LZWBits.
 Import ListNotations.
 Open Scope Z_scope.
 
@@ -43,6 +47,34 @@ Theorem C03_tiff : forall colors columns rows, 1 <= colors -> 1 <= columns ->
   apply_tiff_predictor colors columns 8 (flat_map (tiff_enc_row colors) rows) = FOk (List.concat rows).
 Proof. exact tiff_roundtrip. Qed.
 
+Theorem C03_lzw_codes : forall ws ks, length ks = length ws -> (forall t, (t < length ws)%nat -> phrase ws t <> []) ->
+  (forall t, (t < length ws)%nat -> code_ok ws t (nth t ks 0)) ->
+  feed_all lzw_init (256 :: ks) = Some (List.concat ws).
+Proof. exact lzw_codes_decode. Qed.
+
+Theorem C03_lzw : forall data ws ks (eod : bool), Forall LZWBits.byte data ->
+  length ks = length ws -> (forall t, (t < length ws)%nat -> phrase ws t <> []) ->
+  (forall t, (t < length ws)%nat -> code_ok ws t (nth t ks 0)) ->
+  carries (mkB data 0 8) lzw_init (256 :: ks ++ (if eod then [257] else [])) ->
+  lzwdecode data = FOk (List.concat ws).
+Proof. exact lzw_stream_decodes. Qed.
+
+(* readbits takes the next w bits, most significant first, for every stream position *)
+Theorem C03_readbits : forall fuel b w v, wfb b -> 0 <= w <= blen b -> w <= (8 - bpos b) + 8 * (Z.of_nat fuel - 1) -> (1 <= fuel)%nat ->
+  exists b', readbits fuel b w v = Some (v * 2 ^ w + top b w, b') /\ wfb b' /\ blen b' = blen b - w /\
+             bval b' = bval b mod 2 ^ (blen b - w).
+Proof. exact readbits_spec. Qed.
+
+Example C03_lzw_nonvacuous :
+  let data := [128; 11; 96; 80; 34; 12; 12; 133; 1] in
+  let ws := [[45]; [45; 45]; [45; 45]; [65]; [45; 45; 45]; [66]] in
+  let ks := [45; 258; 258; 65; 259; 66] in
+  (Forall LZWBits.byte data /\ length ks = length ws /\ (forall t, (t < length ws)%nat -> phrase ws t <> []) /\
+   (forall t, (t < length ws)%nat -> code_ok ws t (nth t ks 0)) /\
+   carries (mkB data 0 8) lzw_init (256 :: ks ++ [257])) /\
+  lzwdecode data = FOk [45; 45; 45; 45; 45; 65; 45; 45; 45; 66].
+Proof. exact lzw_iso_example. Qed.
+
 Theorem C03_chain : forall inflate stages encs x,
   Forall2 (stage_inverts inflate) stages encs ->
   decode_chain inflate stages (encode_chain encs x) = FOk x.
@@ -65,4 +97,8 @@ Print Assumptions C03_ascii85.
 Print Assumptions C03_png.
 Print Assumptions C03_tiff.
 Print Assumptions C03_chain.
+Print Assumptions C03_lzw_codes.
+Print Assumptions C03_lzw.
+Print Assumptions C03_readbits.
+Print Assumptions C03_lzw_nonvacuous.
 Print Assumptions C03_nonvacuous.
